@@ -38,6 +38,7 @@ func VerifC01SQLiteTxDiscipline() {
 	if vrt.Choose("policy", 2) == 1 {
 		s.dropPolicy = "drop_oldest"
 	}
+	vrt.Replace(isSQLiteConstraintError, func(err error) bool { return err != nil && strings.Contains(err.Error(), "constraint") })
 	now := time.Unix(1700000000, 0)
 	env := func(id string) Envelope {
 		return Envelope{ID: id, Route: "r", Target: "t", State: StateQueued, Payload: []byte{}, ReceivedAt: now, NextRunAt: now}
